@@ -44,7 +44,8 @@ OBLIGATIONS = [
 ]
 TRUSTED = [
     "AEAD tokens are symbolic (Dolev-Yao): a client presents issued tokens or junk, cannot seal; opening succeeds iff the "
-    "AAD identity matches and the token is fresh (byte-level framing and AAD layout are C12's model)",
+    "AAD identity (for the call token: and the endpoint's method) matches and the token is fresh (byte-level framing and "
+    "AAD layout are C12's model); method names are distinct NUL-free identifiers",
     "call ids (os.urandom(16)) are unique: a call id is the index of its /init",
     "a call state deserialised from its token equals the object /init cached (C11/C02 round trip); call-state class names "
     "are unique within a service",
@@ -56,7 +57,9 @@ TRUSTED = [
 RULE = (
     "hand-written corpus (DESIGN §7.1 witness, cross-method, non-echoing, key-colliding identities, LRU order, capacity 0, "
     "TTL boundaries in quarter seconds) + generated histories: 2-3 workers, capacities 0..3, token_ttl in {0,2,3,10}, "
-    "<=12 (quick) / <=25 (thorough) steps of tick/init/continuation over 4 stream methods and 8 identities; continuation "
+    "<=12 (quick) / <=25 (thorough) steps of tick/init/continuation over 6 stream methods (two exchange methods with "
+    "different call-state classes, a producer without call state, one whose state does not decode foreign cursors, one "
+    "whose call-state class it does not declare, one whose state never rehydrates) and 8 identities; continuation "
     "requests are mostly conforming, with streams of wrong identity / wrong method / missing, junk or mispaired call "
     "token / junk cursor / cancel; clock steps biased to the TTL boundary. A history is non-trivial when at least one "
     "continuation hit a warm cache; distinct by the symbolic history"
@@ -72,8 +75,9 @@ MANIFEST = {
             "call state, LRU bound; the model follows the extracted shape of the cache call sites and is compared with "
             "real app instances on every run",
     "note": "tokens symbolic; 'continuation request' = request that echoes the call token (WIRE_PROTOCOL MUST); the tree "
-            "carries a fix: commit aligning entry expiry with the call token and re-applying the call-state type check "
-            "on a hit",
+            "carries fix: commits aligning entry expiry with the call token and re-applying on a hit what the miss path "
+            "checks about the call (method binding, declared call-state type); token rejections are uniform on the wire, so "
+            "outcomes are compared at the granularity tokenRejected / callMissing / callType / stateDecode",
     "technique": "Lean 4 proof: invariant + refinement over histories; extraction of constants, comparison operators and "
                  "call-site shape; differential correspondence on falcon.testing apps with a patched clock",
 }
@@ -157,11 +161,46 @@ class SA2(StreamState):
         self.k += 1
 
 
+@dataclass
+class SM(StreamState):
+    """Misconfigured stream: the state class declares CA, /init hands out a CB call state."""
+
+    n: int = 0
+    CALL_STATE_TYPE: ClassVar[Any] = CA
+
+    def bind_call_state(self, call_state: Any) -> None:
+        self._cs = call_state
+
+    def process(self, input: Any, out: Any, ctx: Any) -> None:
+        _emit(out, 5, self._cs.tag, self.n, input.batch.column(0)[0].as_py())
+        self.n += 1
+
+
+@dataclass
+class SD(StreamState):
+    """A state that never comes back from a token: `rehydrate` raises (after the call was resolved and cached)."""
+
+    n: int = 0
+    CALL_STATE_TYPE: ClassVar[Any] = CA
+
+    def bind_call_state(self, call_state: Any) -> None:
+        self._cs = call_state
+
+    def rehydrate(self, implementation: object) -> None:
+        raise RuntimeError("backend handle is gone")
+
+    def process(self, input: Any, out: Any, ctx: Any) -> None:
+        _emit(out, 6, self._cs.tag, self.n, input.batch.column(0)[0].as_py())
+        self.n += 1
+
+
 class Proto(Protocol):
     def exa(self, tag: int) -> Stream[SA]: ...
     def exb(self, tag: int) -> Stream[SB]: ...
     def prod(self, tag: int) -> Stream[SP]: ...
     def exa2(self, tag: int) -> Stream[SA2]: ...
+    def exm(self, tag: int) -> Stream[SM]: ...
+    def exd(self, tag: int) -> Stream[SD]: ...
 
 
 class Impl:
@@ -177,14 +216,20 @@ class Impl:
     def exa2(self, tag: int) -> Stream[SA2]:
         return Stream(output_schema=OUT, state=SA2(0), input_schema=IN, call_state=CA(tag))
 
+    def exm(self, tag: int) -> Stream[SM]:
+        return Stream(output_schema=OUT, state=SM(0), input_schema=IN, call_state=CB(tag))
 
-METHODS = ["exa", "exb", "prod", "exa2"]
-STATE_CLS = [SA, SB, SP, SA2]
-STATE_SAMPLE = [SA(0), SB(0), SP(0, 0), SA2(0)]
-STYPE: list[int | None] = [0, 1, None, 0]  # call-state class of each method's streams (0 = CA, 1 = CB)
-DECLARES = [[True, False], [False, True], [False, False], [True, False]]
-PRODUCER = [False, False, True, False]
-CALL_STATE_CODES = {1, 2, 4}  # row codes of the methods whose output carries the tag of the bound call state
+    def exd(self, tag: int) -> Stream[SD]:
+        return Stream(output_schema=OUT, state=SD(0), input_schema=IN, call_state=CA(tag))
+
+
+METHODS = ["exa", "exb", "prod", "exa2", "exm", "exd"]
+STATE_CLS = [SA, SB, SP, SA2, SM, SD]
+STATE_SAMPLE = [SA(0), SB(0), SP(0, 0), SA2(0), SM(0), SD(0)]
+STYPE: list[int | None] = [0, 1, None, 0, 1, 0]  # call-state class of each method's streams (0 = CA, 1 = CB)
+DECLARES = [[True, False], [False, True], [False, False], [True, False], [True, False], [True, False]]
+PRODUCER = [False, False, True, False, False, False]
+CALL_STATE_CODES = {1, 2, 4, 5, 6}  # row codes of the methods whose output carries the tag of the bound call state
 
 # identities: index -> (domain, principal) | None (anonymous). 0/1 collide on the cache key, 6/7 on key *and* AAD.
 IDENTS: list[tuple[str, str] | None] = [
@@ -297,18 +342,18 @@ STATE_KEY = b"vgi_rpc.stream_state#b64"
 CALL_KEY = b"vgi_rpc.call_state#b64"
 CANCEL_KEY = b"vgi_rpc.cancel"
 
+def _uniform_message() -> str:
+    from vgi_rpc.http.server import _state_token
+
+    return getattr(_state_token, "_TOKEN_REJECTED_MESSAGE", "Malformed state token, signature verification failed, or token expired")
+
+
+# the distinguishable 400s of the resolution path (every token failure carries the one uniform message)
 _CATS = [
-    ("State token expired", "cursorExpired"),
-    ("Malformed state token", "cursorBad"),
-    ("State token signature verification failed", "cursorBad"),
-    ("Malformed token payload", "cursorBad"),
     ("Missing call token in exchange request", "callMissing"),
-    ("Call token expired", "callExpired"),
-    ("Malformed call token", "callBad"),
-    ("Call token signature verification failed", "callBad"),
-    ("State token does not belong to the supplied call token", "callMismatch"),
     ("Call token declares call-state type", "callType"),
     ("Failed to deserialize state", "stateDecode"),
+    (_uniform_message(), "tokenRejected"),
 ]
 REJECTS = {c for _, c in _CATS}
 
@@ -365,6 +410,13 @@ def _junk(kind: str, good: bytes | None, other: bytes | None) -> bytes:
         return base64.b64encode(bytes(raw))
     if kind == "trunc" and good:
         return base64.b64encode(base64.b64decode(good)[:-3])
+    if kind == "noncanon" and good:  # same envelope, unused trailing bits of the last base64 quantum set
+        alpha = b"ABCDEFGHIJKLMNOPQRSTUVWXYZabcdefghijklmnopqrstuvwxyz0123456789+/"
+        body = good.rstrip(b"=")
+        pad = len(good) - len(body)
+        if pad:
+            return body[:-1] + alpha[alpha.index(body[-1:]) | 1 : (alpha.index(body[-1:]) | 1) + 1] + b"=" * pad
+        return good + b"="
     if kind == "swap" and other:  # the other kind of token (call presented as cursor and vice versa)
         return other
     if kind == "foreign" and other:  # sealed under another key
@@ -372,7 +424,7 @@ def _junk(kind: str, good: bytes | None, other: bytes | None) -> bytes:
     return base64.b64encode(b"\x01" + bytes(40))
 
 
-JUNK_KINDS = ["garbage", "notb64", "empty", "flip", "trunc", "swap", "foreign"]
+JUNK_KINDS = ["garbage", "notb64", "empty", "flip", "trunc", "swap", "foreign", "noncanon"]
 
 
 class Deployment:
@@ -456,8 +508,9 @@ class Deployment:
             assert d["status"] == 200 and d["call"] is not None, d
             from vgi_rpc.http.server._state_token import _compute_call_aad, _open_call_token
 
-            call_id = _open_call_token(d["call"], KEY, _compute_call_aad(_auth(st["id"])))[4]
-            self.calls.append({"token": d["call"], "call_id": call_id, "owner": st["id"], "m": st["m"]})
+            call_id = _open_call_token(d["call"], KEY, _compute_call_aad(_auth(st["id"]), METHODS[st["m"]]))[4]
+            self.calls.append({"token": d["call"], "call_id": call_id, "owner": st["id"], "m": st["m"],
+                               "created_s": self.clock.ticks // TPS})
             self.cursors.append(d["cur"])
             self.cursor_cid.append(cid)
             self.obs.append({"init": outcome(d), "caches": [self.cache_view(i) for _, i in self.workers]})
@@ -505,7 +558,7 @@ class Deployment:
             self.cursor_cid.append(named_cid if named_cid is not None else -1)
         was_hit = named_cid is not None and any(k[0] == self.calls[named_cid]["call_id"] for k in before) and call is not None and served
         self.obs.append({"warm": warm, "cold": cold, "conf": conf, "conforming": conforming, "served": served,
-                         "named_cid": named_cid, "caches": [self.cache_view(i) for _, i in self.workers]})
+                         "named_cid": named_cid, "now_s": self.clock.ticks // TPS, "caches": [self.cache_view(i) for _, i in self.workers]})
         if was_hit:
             self.hits += 1
 
@@ -525,7 +578,9 @@ def measure_decodes() -> list[list[bool]]:
             data = _serialize_state_bytes(STATE_SAMPLE[m2], STATE_CLS[m2])
             try:
                 cls, raw = _resolve_state_cls(data, STATE_CLS[m])
-                _deserialize_state_bytes(cls, raw, IpcValidation.FULL)
+                obj = _deserialize_state_bytes(cls, raw, IpcValidation.FULL)
+                obj.bind_call_state(None)
+                obj.rehydrate(None)
                 row.append(True)
             except Exception:  # noqa: BLE001
                 row.append(False)
@@ -561,6 +616,18 @@ def _real_cat(d: dict[str, Any]) -> str:
     return c if (c in REJECTS or c.startswith(("other-400", "non-arrow"))) else "served"
 
 
+def _why(dep: Deployment, st: dict[str, Any], ob: dict[str, Any]) -> str:
+    """Harness-side reason a cold worker refuses the request (the wire message is uniform)."""
+    cid = ob["named_cid"]
+    if cid is None:
+        return "no-cursor"
+    if st["m"] != dep.calls[cid]["m"]:
+        return "cross-method"
+    if dep.ttl > 0 and ob["now_s"] - dep.calls[cid]["created_s"] > dep.ttl:
+        return "call-expired"
+    return "other"
+
+
 def evaluate(ctx: Any, dep: Deployment, decodes: list[list[bool]], tags: tuple[str, ...] = ()) -> None:
     from vgi_rpc.http.server._state_token import _compute_aad
 
@@ -578,7 +645,7 @@ def evaluate(ctx: Any, dep: Deployment, decodes: list[list[bool]], tags: tuple[s
             if outcome(warm) != outcome(cold):
                 wc, cc = _real_cat(warm), _real_cat(cold)
                 if wc == "served" and cc != "served":
-                    key = f"C14:warm-served-cold-rejected:{cc}"
+                    key = f"C14:warm-served-cold-rejected:{cc}:{_why(dep, st, ob)}"
                 elif wc != "served" and cc == "served":
                     key = f"C14:warm-rejected-cold-served:{wc}"
                 else:
@@ -664,7 +731,11 @@ def generate(rng: Any, pool: Pool, clock: Clock, max_steps: int) -> Deployment:
         idents = [0, 1] + idents[:1]  # the two identities that collide on the cache key
     if rng.random() < 0.1:
         idents = [6, 7]  # collide on the AAD as well
-    methods = rng.sample(range(len(METHODS)), rng.choice([1, 2, 2, 3]))
+    methods = []
+    while len(methods) < rng.choice([1, 2, 2, 3]):
+        mm = rng.choice([0, 0, 0, 1, 1, 2, 2, 3, 4, 5])  # the well-configured methods more often
+        if mm not in methods:
+            methods.append(mm)
     n = rng.randint(4, max_steps)
     for _ in range(n):
         live = [i for i, c in enumerate(dep.cursors) if c is not None]
@@ -751,6 +822,11 @@ def corpus() -> list[tuple[str, int, list[int], list[dict[str, Any]]]]:
     out.append(("cap0-producer-cancel", 3, [0, 1, 3],
                 [_i(0, 2, 2), _c(0, 2, 2, 0, 0), _c(1, 2, 2, 1, 0), _c(2, 2, 2, 2, 0), _c(1, 2, 2, 3, 0, True), _t(3 * S + 1),
                  _c(1, 2, 2, 3, 0), _c(2, 2, 2, 3, 0), _c(0, 2, 2, 3, 0)]))
+    # a call whose call-state class its own method does not declare (hit and miss must both say so); a state that does
+    # not come back from its token (the call is resolved and cached before the failure)
+    out.append(("own-method-type-and-decode", 10, [2, 2],
+                [_i(0, 2, 4), _c(0, 2, 4, 0, 0), _c(1, 2, 4, 0, 0), _c(1, 2, 4, 0, 0),
+                 _i(0, 2, 5), _c(0, 2, 5, 1, 1), _c(1, 2, 5, 1, 1), _c(1, 2, 5, 1, 1), _c(1, 2, 0, 1, 1)]))
     # tokens never expire: entry lifetime is housekeeping (3600 s)
     out.append(("ttl0", 0, [1, 1], [_i(0, 2, 0), _t(3599 * S), _c(0, 2, 0, 0, 0), _t(S), _c(0, 2, 0, 1, 0), _c(1, 2, 0, 1, 0),
                                     _t(3600 * S), _c(1, 2, 0, 2, 0)]))
@@ -770,18 +846,28 @@ def _model_selfcheck(ctx: Any) -> None:
 
     if ctx.driver is None:
         return
+    cur_prefixes, call_prefixes = set(), set()
     for i in range(len(IDENTS)):
         a = _auth(i)
         k = "".join(chr(c) for c in ctx.driver.call("C14.identKey", {"id": ident_json(i)}))
-        t = "".join(chr(c) for c in ctx.driver.call("C14.aadTail", {"id": ident_json(i)}))
+        t = "".join(chr(c) for c in ctx.driver.call("C14.aadTail", {"id": ident_json(i)})).encode()
         real_k = _CallStateCache._identity(a)
-        cur, call = _compute_aad(a), _compute_call_aad(a)
-        p1, p2 = b"vgi_rpc.state.v4\x00", b"vgi_rpc.call.v1\x00"
+        cur = _compute_aad(a)
+        calls = [_compute_call_aad(a, m) for m in METHODS]
         ctx.case({"identity": i}, nontrivial=True, tags=("k:identity",))
         if k != real_k:
             ctx.mismatch({"identity": i}, k, real_k, "_identity: model vs implementation")
-        if not (cur.startswith(p1) and call.startswith(p2) and cur[len(p1):] == call[len(p2):] == t.encode()):
-            ctx.mismatch({"identity": i}, t, [cur.hex(), call.hex()], "AAD identity tail: model vs implementation")
+        ok = cur.endswith(t) and all(c.endswith(t) for c in calls)
+        if ok:
+            cur_prefixes.add(cur[: len(cur) - len(t)])
+            call_prefixes.add(tuple(c[: len(c) - len(t)] for c in calls))
+        if not ok:
+            ctx.mismatch({"identity": i}, t.hex(), [cur.hex()] + [c.hex() for c in calls], "AAD identity tail: model vs implementation")
+    # what precedes the identity tail does not depend on the identity, and the call AAD's differs per method
+    if len(cur_prefixes) > 1 or len(call_prefixes) > 1 or any(len(set(p)) != len(METHODS) for p in call_prefixes):
+        ctx.mismatch({"identity": "prefixes"}, "constant prefix; per-method call prefix",
+                     [sorted(x.hex() for x in cur_prefixes), sorted([y.hex() for y in x] for x in call_prefixes)],
+                     "AAD prefix: model assumption vs implementation")
 
 
 def run(ctx: Any) -> None:
